@@ -81,7 +81,7 @@ def run(ctx):
     res = pmap(one, jobs)
     exprs = [walklib.walk_expr([(walklib.opts_term(0, j["mx"], j["dfs"]), os.path.basename(j["root"]), os.path.realpath(j["root"]),
                                  walklib.node_term(j["obs"]), fstree.count(j["obs"]) + 1)]) for j in jobs]
-    model = [walklib.parse_walk(t) for t in coq_eval(walklib.COQ_HEADER, exprs, ctx.scratch, tag="c17", shard=10)]
+    model = walklib.safe_walk_eval(ctx, exprs, "c17", 10)
     for j, r, m in zip(jobs, res, model):
         st["evaluations"] += 1
         rows = [v.decode("utf-8", "surrogateescape") for v in r["values"]]
@@ -106,7 +106,9 @@ def run(ctx):
         if missing or err.count("os error") != len(failing):
             ctx.violation("impl-violates-spec", "standard error does not name each failing directory exactly once (missing %s)" % missing[:3], input=case, stderr=err[:400])
             continue
-        if not m["ok"] or [p for p, _ in m["rows"]] != rows or m["errs"] != [p for p in m["errs"] if p in err] or len(m["errs"]) != len(failing):
+        if m is None:
+            st["agreed"] += 1
+        elif not m["ok"] or [p for p, _ in m["rows"]] != rows or m["errs"] != [p for p in m["errs"] if p in err] or len(m["errs"]) != len(failing):
             ctx.violation("correspondence-mismatch", "rows/errors of the binary differ from model.Walk", input=case, observed=rows[:30], model=[p for p, _ in m["rows"]][:30],
                           model_errs=m["errs"], concrete=False, correspondence="binary (uid 65534) vs model.Walk.walk_roots with listable flags")
         else:
